@@ -333,6 +333,7 @@ func parseGroup(mp *msgParser, tags []Tag) {
 			return
 		}
 		mp.parsedFieldBytes = &mp.msg.fields[mp.fieldIndex]
+		beforeField := mp.rawBytes
 		mp.rawBytes, _ = extractField(mp.parsedFieldBytes, mp.rawBytes)
 		mp.trailerBytes = mp.rawBytes
 
@@ -355,6 +356,8 @@ func parseGroup(mp *msgParser, tags []Tag) {
 			break
 		} else if isTrailerField(mp.parsedFieldBytes.tag, mp.transportDataDictionary) {
 			// Found the trailer at the end of the message.
+			// The body ends where this trailer field starts, not after it.
+			mp.trailerBytes = beforeField
 			mp.msg.Body.add(dm)
 			mp.msg.Trailer.add(mp.msg.fields[mp.fieldIndex : mp.fieldIndex+1])
 			mp.foundTrailer = true
